@@ -9,7 +9,8 @@
 (* The vectors written at the end are replayed into kernel/thm.py and the checker.     *)
 EXTENDS Kernel, HolSem, FiniteSets, Json, IOUtils
 
-CONSTANTS MaxRound, MaxSize, MaxHyps, N, EmitRejected
+CONSTANTS MaxRound, MaxSize, MaxHyps, N, EmitRejected, Focus
+\* Focus = TRUE: small pools around schematic TYPE variables, so that three rounds are cheap
 
 \* ---------------------------------------------------------------- signature
 TA == <<"tv","a">>
@@ -24,30 +25,39 @@ vR == <<"var","R",FunT(TA,BoolT)>>
 sR == <<"svar","R",FunT(TA,BoolT)>>
 sz == <<"svar","z",SA>>         \* schematic variable of schematic type
 B0 == <<"bound",0>>
+vp == <<"var","p",SA>>          vq == <<"var","q",SA>>      \* variables of schematic type
+AllEq == Forall(vp, Forall(vq, MkEq(vp, vq)))              \* "?'a has one element": true or false depending on the model
 
 TermsA == {vx, vy, sx, App(vf, vx), App(vf, sx)}
 Atoms == {vA, vB, sP, sQ, App(vR, vx), App(vR, sx), App(sR, vx), MkEq(vx, vy), MkEq(sx, vx), xb}
 Props1 == Atoms \cup { Imp(a, b) : a \in {vA, sP, App(vR, vx)}, b \in {vA, vB, sP} }
                 \cup { Forall(v, b) : v \in {vx, sx}, b \in {App(vR, vx), App(vR, sx), MkEq(vx, vx)} }
-                \cup { Forall(vA, vA), Forall(sP, sP), Forall(vA, Imp(vA, vA)) }
+                \cup { Forall(vA, vA), Forall(sP, sP), Forall(vA, Imp(vA, vA)), AllEq, MkEq(sz, sz) }
 Redexes == { App(Lambda(vx, b), a) : b \in {App(vR, vx), App(vf, vx), vy}, a \in {vx, sx, App(vf, vy)} }
            \cup { App(Lambda(sx, App(vR, sx)), vx) }
 \* adversarial arguments: ill-typed applications, loose bound variables, non-boolean "propositions"
 Adversarial == { App(vA, vx), App(vR, vA), App(vf, vA), B0, App(vR, B0), vx, vf,
                  <<"abs", TA, <<"bound", 1>> >>, App(Lambda(vx, App(vR, vx)), vA) }
-AssumePool == Props1 \cup Adversarial
-ReflPool == TermsA \cup {vA, sP, vf, vR, Lambda(vx, App(vR, vx))} \cup Redexes \cup Adversarial
-BetaPool == Redexes \cup {vx, App(vf, vx)} \cup Adversarial
-VarPool == {vx, vy, sx, vA, sP, xb, vf, sR} \cup {App(vf, vx), B0, <<"const","c",TA>>}
-ElimPool == TermsA \cup {vA, vB, sP, Imp(vA, vA), Forall(vA, vA)} \cup {App(vA, vx), B0}
+AssumePool == IF Focus THEN {AllEq, sP, MkEq(sz, sz)} ELSE
+   Props1 \cup Adversarial
+ReflPool == IF Focus THEN {sz} ELSE
+   TermsA \cup {vA, sP, vf, vR, Lambda(vx, App(vR, vx))} \cup Redexes \cup Adversarial
+BetaPool == IF Focus THEN {} ELSE
+   Redexes \cup {vx, App(vf, vx)} \cup Adversarial
+VarPool == IF Focus THEN {sz, vp, sP} ELSE
+   {vx, vy, sx, vA, sP, xb, vf, sR} \cup {App(vf, vx), B0, <<"const","c",TA>>}
+ElimPool == IF Focus THEN {vA} ELSE
+   TermsA \cup {vA, vB, sP, Imp(vA, vA), Forall(vA, vA)} \cup {App(vA, vx), B0}
 NoArg == <<"none">>
 EmptyAL == <<>>
-InstPool == { [ty |-> EmptyAL, sv |-> sv] : sv \in
+InstPool == IF Focus THEN { [ty |-> EmptyAL, sv |-> sv] : sv \in { << <<"z", vA>> >>, << <<"z", vx>> >>, << <<"P", vA>> >> } } ELSE
+   { [ty |-> EmptyAL, sv |-> sv] : sv \in
                { <<>>, << <<"P", vA>> >>, << <<"P", Imp(vA, vA)>> >>, << <<"P", Forall(vA, vA)>> >>, << <<"P", sQ>> >>,
                  << <<"P", sQ>>, <<"Q", sP>> >>, << <<"x", vx>> >>, << <<"x", vy>> >>, << <<"x", App(vf, vx)>> >>,
                  << <<"R", vR>> >>, << <<"R", Lambda(vx, MkEq(vx, vx))>> >>, << <<"P", vx>> >>, << <<"x", vA>> >>,
                  << <<"z", vx>> >>, << <<"z", vA>> >> } }
-TyInstPool == { << <<"a", BoolT>> >>, << <<"a", TA>> >>, << <<"a", FunT(TA, TA)>> >>, <<>> }
+TyInstPool == IF Focus THEN { << <<"a", BoolT>> >> } ELSE
+   { << <<"a", BoolT>> >>, << <<"a", TA>> >>, << <<"a", FunT(TA, TA)>> >>, <<>> }
 
 \* ---------------------------------------------------------------- derivation attempts
 \* uniform argument record so that TLC never compares values of different kinds
@@ -65,7 +75,7 @@ Attempts(S) ==
   \cup { Att("reflexive", ArgT(a), <<>>, Chk(Reflexive(a))) : a \in ReflPool }
   \cup { Att("beta_conv", ArgT(a), <<>>, IF WT(a) THEN Chk(BetaConvR(a)) ELSE ErrS) : a \in BetaPool }
   \cup UNION { { Att("implies_intr", ArgT(a), <<th>>, IF WT(a) THEN Chk(ImpliesIntr(a, th)) ELSE ErrS)
-                   : a \in th.h \cup {vA, sP, App(vR, vx), App(vA, vx)} } : th \in S }
+                   : a \in th.h \cup {vA, sP, App(vR, vx), App(vA, vx), MkEq(sz, sz)} } : th \in S }
   \cup { Att("symmetric", ArgT(NoArg), <<th>>, Chk(Symmetric(th))) : th \in S }
   \cup UNION { { Att("abstraction", ArgT(v), <<th>>, Chk(Abstraction(v, th))) : v \in VarPool } : th \in S }
   \cup UNION { { Att("forall_intr", ArgT(v), <<th>>, Chk(ForallIntr(v, th))) : v \in VarPool } : th \in S }
